@@ -239,6 +239,8 @@ def run(ctx):
             ctx.nontrivial(("r", form, h))
             ctx.sample("random-" + form, {"history": h[:8], "keyform": form})
     finally:
+        if pr.events.get("TrieDict.__setitem__", 0) == 0:
+            ctx.count("invariant-walks:not-applicable")  # the implementation no longer goes through the hooked method
         pr.stop()
     return {"probes": pr.report()}
 
